@@ -1,4 +1,5 @@
 import Asn1Verif.Uper.CompatSplit
+import Asn1Verif.Codegen.TagsLemmas
 /-
   C05 — Extension additions are forward/backward compatible across schema versions: if V2 differs
   from V1 only by appending extension additions (SEQUENCE/SET), extension alternatives (CHOICE) or
@@ -24,6 +25,16 @@ import Asn1Verif.Uper.CompatSplit
   (≥ 16K octets) unknown addition is NOT skipped correctly by `skip_unknown_extension_additions`
   (it reads one length determinant and jumps `len * 8` bits: known limitation, same class as the
   open-type finding of C01).
+
+  SET.  The statements are about descriptors: the component list in the order of the generated
+  `read_seq`/`write_seq`, and `addExtensions` APPENDS the new additions to it.  For a SEQUENCE that
+  is the textual order.  For a SET the generator sorts (`sort_fields_canonically`, model
+  `Codegen/Tags.lean`, property C16); `set_version_descriptor` ties the two: the descriptor the
+  generator emits for a SET version with appended additions is the old descriptor followed by the
+  new additions, with the same `EXTENDED_AFTER_FIELD` — so `seq_fwd_partial`/`seq_bwd_partial`
+  apply to SET versions as they do to SEQUENCE versions.  (Before the repair of the sort the
+  additions were sorted by tag among themselves and a new addition with a lower tag moved in
+  front of an old one: former finding F-set-additions-sorted, witness `zoo_ver::SetV1/SetV2`.)
 -/
 namespace Asn1Verif.Props.C05
 open Asn1Verif Asn1Verif.Per Asn1Verif.Uper Outcome
@@ -222,6 +233,53 @@ theorem seq_bwd_partial (so fc k : Nat) (fields adds : Fields) (vs avs : Vals) (
     exact seq_bwd so fc so (fc + adds.length) k fields adds vs avs bits hc.1.2.1 hl hr.1 hvs.1 hrt.1 ho
       hvs.2 h _ _ post (At.of_append pre bits post)
   · cases h2
+
+/-! ### SET: appending additions to the text appends them to the descriptor -/
+
+/-- **SET versions**: V2's text is V1's text with extension additions appended (marker behind
+    component `k`; the tagging mode stays — a list that is tagged automatically gets untagged
+    additions only).  Then the order of the `read_value`/`write_value` calls the generator emits
+    for V2 is the order emitted for V1 followed by the new additions as written, and
+    `EXTENDED_AFTER_FIELD` is the same: V2's descriptor is `addExtensions` of V1's. -/
+theorem set_version_descriptor (fields adds : List Codegen.Tags.RField) (k : Nat)
+    (hk : k < fields.length)
+    (hn : Codegen.Tags.NoneTagged fields → Codegen.Tags.NoneTagged adds)
+    (em1 em2 : Codegen.Tags.Emitted)
+    (h1 : Codegen.Tags.writeConstraints .sort fields (some k) = .ok em1)
+    (h2 : Codegen.Tags.writeConstraints .sort (fields ++ adds) (some k) = .ok em2) :
+    em2.order = em1.order ++ adds.map (·.name) ∧ em2.extAfter = em1.extAfter :=
+  Codegen.Tags.writeConstraints_sort_append fields adds k hk hn em1 em2 h1 h2
+
+section SetWitness
+open Asn1Verif.Codegen.Tags
+
+/-- `zoo_ver::SetV1 ::= SET { a [0] INTEGER (0..7), ..., b [5] BOOLEAN OPTIONAL }` -/
+def setV1 : List RField :=
+  [{ name := "a", tag := some (Tag.contextSpecific 0), typeTag := some (Tag.universal 2),
+     kind := .builtin .integer, presence := .required },
+   { name := "b", tag := some (Tag.contextSpecific 5), typeTag := some (Tag.universal 1),
+     kind := .builtin .boolean, presence := .optional }]
+
+/-- `SetV2` = `SetV1` + `c [2] INTEGER (0..255) OPTIONAL`: the new addition has a lower tag than
+    the old one -/
+def setV2Adds : List RField :=
+  [{ name := "c", tag := some (Tag.contextSpecific 2), typeTag := some (Tag.universal 2),
+     kind := .builtin .integer, presence := .optional }]
+
+-- regression, the witness of the former finding: V2 is emitted `a, b, c` (was `a, c, b`, so that a
+-- V1 encoding {a=5, b=TRUE} decoded under V2 as {a=5, c=128, b absent}); the hypotheses of
+-- `set_version_descriptor` hold on it
+example : (writeConstraints .sort setV1 (some 0)).bind (fun em => .ok (em.order, em.extAfter))
+      = .ok (["a", "b"], some 0) ∧
+    (writeConstraints .sort (setV1 ++ setV2Adds) (some 0)).bind
+      (fun em => .ok (em.order, em.extAfter)) = .ok (["a", "b", "c"], some 0) := by
+  simp [setV1, setV2Adds, writeConstraints, assignImplicitTags, tagConsts, tagConst, emitOrder,
+    sortFieldsCanonically, prepare, sortKeyed, List.mergeSort,
+    List.MergeSort.Internal.splitInTwo, List.merge, keyLe, extendedFlag, List.zipIdx,
+    Outcome.bind]
+example : 0 < setV1.length ∧ (NoneTagged setV1 → NoneTagged setV2Adds) := by decide
+
+end SetWitness
 
 /-! ### non-vacuity: three versions of a message -/
 
